@@ -96,9 +96,20 @@ fn dispatch(op: &str, fields: &[&str]) -> String
 	}
 }
 
+static LAST_PANIC_LOCATION: std::sync::Mutex<String> = std::sync::Mutex::new(String::new());
+
 fn main()
 {
-	std::panic::set_hook(Box::new(|_| {}));
+	// remember where a panic came from: the call site identifies the defect
+	std::panic::set_hook(Box::new(|info| {
+		if let Some(l) = info.location()
+		{
+			if let Ok(mut g) = LAST_PANIC_LOCATION.lock()
+			{
+				*g = format!("{}:{}", l.file().trim_start_matches("/repo/"), l.line());
+			}
+		}
+	}));
 	let stdin = std::io::stdin();
 	let stdout = std::io::stdout();
 	let mut out = std::io::BufWriter::new(stdout.lock());
@@ -129,7 +140,8 @@ fn main()
 				{
 					"?".to_string()
 				};
-				format!("panic {}", msg.replace(['\n', '\t'], " "))
+				let at = LAST_PANIC_LOCATION.lock().map(|g| g.clone()).unwrap_or_default();
+				format!("panic at={} {}", at, msg.replace(['\n', '\t'], " "))
 			}
 		};
 		let _ = writeln!(out, "{}", answer);
